@@ -232,6 +232,11 @@ func (e *Engine) callStatic(st *State, fr *Frame, fn *ssa.Function, args []Val, 
 	if fc := e.W.Contract[key]; fc != nil && !e.inlineOverride[key] {
 		return e.callContract(st, fr, fc, fn, key, args, in)
 	}
+	if rs, ok := e.generatedPbCall(st, fn, args); ok {
+		e.usedExterns["generated *.pb.go "+fn.Name()+" (A-PROTO)"] = true
+		e.bindResult(fr, in, rs)
+		return nil, nil
+	}
 	if e.W.InRepo(fn) && fn.Blocks != nil {
 		e.inlined[key] = true
 		e.pushFrame(st, fn, args, nil, in)
